@@ -243,6 +243,11 @@ pub open spec fn deposit_msgs_ok(ms: Seq<SubMsg>, lp: Seq<char>, contract: Seq<c
     && (lock ==> tf_mint_msg(lp, user_shares(ms, lock), contract, ms[n_first].msg)
         && wasm_to(ms[n_first + 1].msg, fm) && wasm_funds_one(ms[n_first + 1].msg, lp, user_shares(ms, lock)))
 }
+/// C08/C15: the farm manager answered a Positions query with exactly one position, carrying this identifier and this receiver
+pub open spec fn fm_reported_position(q: Querier, fm: Seq<char>, id: Seq<char>, rcv: Seq<char>) -> bool {
+    exists|resp: PositionsResponse| #[trigger] wasm_answered(q, fm, resp)
+        && resp.positions@.len() == 1 && resp.positions@[0].identifier@ == id && resp.positions@[0].receiver@ == rcv
+}
 /// the farm-manager call of a locked deposit: Expand{identifier} of an existing position, or Create{.., receiver: Some(receiver)}
 pub open spec fn lock_call_ok(m: CosmosMsg, receiver: Seq<char>, unlocking_duration: u64, lock_id: Option<Str>) -> bool {
     match m {
